@@ -1,5 +1,6 @@
 """C14 / C15 for the JASPAR (raw), JASPAR 2016 and UniPROBE readers (group `io`): SPEC dicts
 merged by props/c14.py and props/c15.py with the TRANSFAC group."""
+from translate import io_abc
 
 
 def _fields(line):
@@ -104,6 +105,12 @@ def _selftest(ctx):
     return [("EVAL", "1", "")]
 
 
+def _signature(detail, obs_line):
+    """known findings are matched on the PROPFAIL detail plus the format of the case"""
+    f = _fields(obs_line.split(" => ")[0]) if obs_line else {}
+    return "%s [fmt=%s]" % (detail, f.get("fmt", "?"))
+
+
 _COMMON = dict(
     group="io",
     name="io",
@@ -111,6 +118,8 @@ _COMMON = dict(
     ml_modules=["io_model"],
     ocaml_packages=("str", "unix"),
     extra=_selftest,
+    signature=_signature,
+    translate=io_abc.translate,
 )
 
 C14_SPEC = dict(
